@@ -1,7 +1,7 @@
-(* PropC03.v — C03: persisted operations survive any later crash, under every policy. END TO END for the process-crash model (C03_process_crash, C03_persisted_survives); event-trace level for the power-loss model. chrono = the I/O trace in chronological order; file_synced name evs = every write to that file is followed by a sync_data of it; power_filter = the power-loss model of the drivers (a write survives only if its file was synced afterwards).
+(* PropC03.v — C03: persisted operations survive any later crash, under every policy. END TO END in both loss models: process crash (C03_process_crash, C03_persisted_survives) and power loss (C03_power_loss, C03_fsynced_survives_power_loss; metadata taken as immediately durable). chrono = the I/O trace in chronological order; file_synced name evs = every write to that file is followed by a sync_data of it; power_filter = the power-loss model of the drivers (a write survives only if its file was synced afterwards).
    Statements only; each theorem is closed by `exact <lemma>`; proofs live in the imported files. *)
 From Coq Require Import Lia NArith List.
-From MRL Require Import Bytes Params Names Frame Record Mem Spec Rolling Log Driver Hist SpecRefine WriterProofs PersistProofs PolicyProofs RestartInv RestartStep TornProofs PersistSurvive PersistShape PersistImage.
+From MRL Require Import Bytes Params Names Frame Record Mem Spec Rolling Log Driver Hist SpecRefine WriterProofs PersistProofs PolicyProofs RestartInv RestartStep TornProofs PersistSurvive PersistShape PersistImage PowerLoss.
 
 (* END TO END, process crash, EVERY policy: from a persist point (a state satisfying the global invariant with nothing buffered) followed by any further history under any policy (DoNothing, OnDelay with any ticks, Always), for every crash image of what had reached the OS (cut before any event or inside any write; buffered bytes lost): open succeeds and yields the abstract state after SOME prefix of the further history - never older than the persist point, never an inconsistent mixture - with roll-overs, multi-file entries, garbage collection and a crash among the unlinks included *)
 Theorem C03_process_crash :
@@ -67,6 +67,120 @@ Theorem C03_persisted_survives :
     s_get (abs_qs (s_qs st_r)) q = s_get (abs_qs (s_qs (fst (run P st0 (firstn m h))))) q).
 Proof. exact C03_persisted_survives. Qed.
 Print Assumptions C03_persisted_survives.
+
+(* END TO END, power loss (only writes followed by a sync_data of their file survive; metadata applied): from a persist point, any further history under any policy, every cut: open succeeds and yields the abstract state after some prefix of the history *)
+Theorem C03_power_loss :
+    forall P : params,
+    7 < BS P ->
+    BS P <= 65542 ->
+    1 <= NB P ->
+    (forall (t : byte) (p : bytes), crcf P t p < 2 ^ 32) ->
+    L_GC P = false ->
+    L_IO P = false ->
+    L_SHORT P = false ->
+    no_zero_collision P ->
+    forall (st0 : state) (G0 : ghost),
+    Inv P st0 G0 ->
+    w_pending (s_wr st0) = [] ->
+    forall h : list (op * bool),
+    GhostLog.hist_wf P st0 h ->
+    RestartWrite.stream_bound P G0 (map snd (GhostLog.run_log P st0 h)) ->
+    forall evs : list event,
+    c_ev (w_ctx (s_wr (fst (run P st0 h)))) = rev evs ++ c_ev (w_ctx (s_wr st0)) ->
+    CB P st0 h ->
+    forall (cut : N) (pol : policy) (hint : list bytes),
+    exists (m : nat) (st_r : state),
+    (m <= length h)%nat /\
+    open P (fold_left apply_event (power_events evs cut) (c_fs (w_ctx (s_wr st0)))) None pol hint =
+    OpenOk st_r /\
+    (forall q : bytes,
+    s_get (abs_qs (s_qs st_r)) q = s_get (abs_qs (s_qs (fst (run P st0 (firstn m h))))) q).
+Proof. exact C03_power_loss. Qed.
+Print Assumptions C03_power_loss.
+
+(* a call that left nothing buffered AND everything synced (FlushAndFsync) cannot be undone by any later power loss *)
+Theorem C03_fsynced_survives_power_loss :
+    forall P : params,
+    7 < BS P ->
+    BS P <= 65542 ->
+    1 <= NB P ->
+    (forall (t : byte) (p : bytes), crcf P t p < 2 ^ 32) ->
+    L_GC P = false ->
+    L_IO P = false ->
+    L_SHORT P = false ->
+    no_zero_collision P ->
+    forall (st0 : state) (G0 : ghost) (h : list (op * bool)) (evs : list event)
+    (i : nat) (evs_i : list event),
+    Inv P st0 G0 ->
+    w_pending (s_wr st0) = [] ->
+    GhostLog.hist_wf P st0 h ->
+    RestartWrite.stream_bound P G0 (map snd (GhostLog.run_log P st0 h)) ->
+    CB P st0 h ->
+    c_ev (w_ctx (s_wr (fst (run P st0 h)))) = rev evs ++ c_ev (w_ctx (s_wr st0)) ->
+    (i <= length h)%nat ->
+    let st_i := fst (run P st0 (firstn i h)) in
+    w_pending (s_wr st_i) = [] ->
+    wr_all_synced (s_wr st_i) ->
+    c_ev (w_ctx (s_wr st_i)) = rev evs_i ++ c_ev (w_ctx (s_wr st0)) ->
+    forall (cut : N) (pol : policy) (hint : list bytes),
+    lenN evs_i <= cut ->
+    exists (m : nat) (st_r : state),
+    (i <= m)%nat /\
+    (m <= length h)%nat /\
+    open P (fold_left apply_event (power_events evs cut) (c_fs (w_ctx (s_wr st0)))) None pol hint =
+    OpenOk st_r /\
+    (forall q : bytes,
+    s_get (abs_qs (s_qs st_r)) q = s_get (abs_qs (s_qs (fst (run P st0 (firstn m h))))) q).
+Proof. exact C03_fsynced_survives_power_loss. Qed.
+Print Assumptions C03_fsynced_survives_power_loss.
+
+(* why: under the log's I/O discipline every power-loss image is literally a process-crash image of the same trace at an earlier cut, with no create / set_len / unlink / sync_data in between *)
+Theorem C03_power_is_crash :
+    forall (evs : list event) (cur : N) (d : bool) (cut : N),
+    disc cur d evs ->
+    exists cut' : N,
+    cut' <= cut /\
+    (forall fs : fsT,
+    fold_left apply_event (power_events evs cut) fs =
+    fold_left apply_event (crash_events evs cut' 0) fs) /\
+    CrashTrace.ev_data (power_events evs cut) = CrashTrace.ev_data (crash_events evs cut' 0) /\
+    Forall (fun e : event => ~ meta_ev e) (dropN cut' (takeN cut evs)).
+Proof. exact power_is_crash. Qed.
+Print Assumptions C03_power_is_crash.
+
+(* the same stated on the drivers' power_events over the whole trace *)
+Theorem C03_power_loss_total :
+    forall P : params,
+    7 < BS P ->
+    BS P <= 65542 ->
+    1 <= NB P ->
+    (forall (t : byte) (p : bytes), crcf P t p < 2 ^ 32) ->
+    L_GC P = false ->
+    L_IO P = false ->
+    L_SHORT P = false ->
+    no_zero_collision P ->
+    forall (st0 : state) (G0 : ghost),
+    Inv P st0 G0 ->
+    w_pending (s_wr st0) = [] ->
+    forall h : list (op * bool),
+    GhostLog.hist_wf P st0 h ->
+    RestartWrite.stream_bound P G0 (map snd (GhostLog.run_log P st0 h)) ->
+    forall evs : list event,
+    c_ev (w_ctx (s_wr (fst (run P st0 h)))) = rev evs ++ c_ev (w_ctx (s_wr st0)) ->
+    CB P st0 h ->
+    forall seeds : fsT,
+    wr_all_synced (s_wr st0) ->
+    c_fs (w_ctx (s_wr st0)) = replay_events seeds (chrono (w_ctx (s_wr st0))) ->
+    forall (cut : N) (pol : policy) (hint : list bytes),
+    lenN (chrono (w_ctx (s_wr st0))) <= cut ->
+    exists (m : nat) (st_r : state),
+    (m <= length h)%nat /\
+    open P (replay_events seeds (power_events (chrono (w_ctx (s_wr (fst (run P st0 h))))) cut)) None pol
+    hint = OpenOk st_r /\
+    (forall q : bytes,
+    s_get (abs_qs (s_qs st_r)) q = s_get (abs_qs (s_qs (fst (run P st0 (firstn m h))))) q).
+Proof. exact C03_power_loss_total. Qed.
+Print Assumptions C03_power_loss_total.
 
 (* the I/O trace of any history under any policy with buffering: writes carry consecutive bytes of what the calls log; unlinks come only directly after flush + sync_data + sync_dir of everything written so far *)
 Theorem C03_trace_shape :
